@@ -22,7 +22,7 @@ EXPLANATION = (
     "(reported, not alarmed, unless a reviewed key gains sites).  R-C20-6 a buffer sized only under a condition is indexed only "
     "under that condition.  R-C20-7 the unwrapped edge lookups (eigenvector, Louvain, clustering) rely on `the pair came from the "
     "adjacency, so the edge is stored`: the keyed accesses to `edges`/`edges_map` in add_edge and in the crate functions whose "
-    "result is unwrapped obey the stores' canonical-key discipline (same rule as R-C02-3).  R-C20-8 re-checks the premise of the reviewed Louvain unwraps: every graph to_single_edges returns has multi_edges = false.  R-C20-13: reductions over lists taken from the graph are unwrapped only behind an emptiness test of that list.  NOT decided: termination of loops (only absence of recursion is "
+    "result is unwrapped obey the stores' canonical-key discipline (same rule as R-C02-3).  R-C20-8 re-checks the premise of the reviewed Louvain unwraps: every graph to_single_edges returns has multi_edges = false.  R-C20-13: reductions over lists taken from the graph are unwrapped only behind an emptiness test of that list.  R-C20-14: no unwrapped lookup in a neighbour map keyed by a caller-chosen subset.  NOT decided: termination of loops (only absence of recursion is "
     "reported), panics inside dependencies, allocation failure."
 )
 TRUSTED = ["rustc MIR construction incl. overflow/div assert terminators (extracted with -C overflow-checks=on)", "std semantics of Option/Result/HashMap/Vec"]
@@ -257,6 +257,9 @@ def run(ctx):
     rule8(ctx, prog, flows)
     rule12(ctx, prog, flows)
     rule13(ctx, prog, flows)
+    from props.c11 import subset_keyed_map_lookups
+
+    subset_keyed_map_lookups(ctx, prog, flows, "R-C20-14")
     from engines import check_unwrapped_callee_kinds
 
     from props.c15 import subgraph_edge_source
